@@ -651,7 +651,7 @@ func (tr *FnTr) check(kind string, cond *Term, p token.Pos) {
 // executed, i.e. it precedes the instruction in the same block or sits in a dominating block.
 func (tr *FnTr) recoverCovers() bool {
 	top := tr.top
-	if !top.recovering {
+	if !top.recovering || (top.ct != nil && top.ct.StrictPanics) {
 		return false
 	}
 	in := top.curInstr
